@@ -40,7 +40,7 @@ class Directive:
 
 class Node:
     __slots__ = ('is_dir', 'data', 'children', 'mtime', 'atime', 'mode', 'ino',
-                 'dirty', 'durable')
+                 'dirty', 'durable', 't_used')
 
     def __init__(self, is_dir, now, mode, ino):
         self.is_dir = is_dir
@@ -51,6 +51,8 @@ class Node:
         self.ino = ino
         self.dirty = True        # changed since the last simulated write-back
         self.durable = None      # bytes on "disk" at the last write-back (None: did not exist)
+        self.t_used = now        # when the content was really last read or written (oracle side;
+                                 # not affected by utime())
 
 
 def _err(code, path, cls=OSError):
@@ -118,6 +120,11 @@ class SimFS:
         return n
 
     def lookup(self, path):
+        if isinstance(path, int):
+            raw = self.fds.get(path)
+            if raw is None:
+                raise _err(errno.EBADF, path)
+            return raw.node
         return self._walk(self.parts(path), path)
 
     def parent(self, path):
@@ -370,6 +377,7 @@ class SimFS:
             if flags & os.O_TRUNC and want_w:
                 n.data = b''
                 n.mtime = self.stamp()
+                n.t_used = self.clock()
                 n.dirty = True
         raw = SimRaw(self, n, os.fspath(path), want_r, want_w, bool(flags & os.O_APPEND))
         if self.on_open is not None:
@@ -393,6 +401,7 @@ class SimFS:
             n = old
         n.data = bytes(data)
         n.mtime = self.stamp() if mtime is None else mtime
+        n.t_used = self.clock()
         n.dirty = True
         return n
 
@@ -543,6 +552,7 @@ class SimRaw(io.RawIOBase):
         b[:len(chunk)] = chunk
         self.pos += len(chunk)
         n.atime = self.fs.stamp()
+        n.t_used = self.fs.clock()
         self.bytes_read.append(chunk)
         if d and d.after:
             raise d.after
@@ -581,6 +591,7 @@ class SimRaw(io.RawIOBase):
             n.data = data[:self.pos] + b[:limit] + data[self.pos + limit:]
             self.pos += limit
             n.mtime = fs.stamp()
+            n.t_used = fs.clock()
             n.dirty = True
         if then is not None:
             raise then
